@@ -126,6 +126,12 @@ def run(cx):
             best = [n for n, _ in facts if n[0] == "len" and n[1] == "max" and n[2] == "le"] + \
                    [("len", "max", "le", -n[3]) for n, _ in facts if n[0] == "max" and n[1] == "len" and n[2] == "ge"]
             k = min([n[3] for n in best], default=None)
+            # the comparison is about the length it read: a push that can run again without passing the comparison again is not covered by it
+            guards = {term.bb for n, term in facts if (n[0] == "len" and n[1] == "max") or (n[0] == "max" and n[1] == "len")}
+            if k is not None and t.target is not None and t.bb in bcfg.reach(t.target, blocked_nodes=guards):
+                cx.bad("C14.R1", "varlink:%s:push-bounded" % body.path, "%s %s" % (t.sp, body.path),
+                       "workers.push sits in a loop that does not re-test len < max before each push: the comparison covers the first push only, the pool can grow beyond max_worker_threads")
+                continue
             cx.check(k is not None and k <= -1, "C14.R1", "varlink:%s:push-bounded" % body.path, "%s %s" % (t.sp, body.path),
                      "workers.push is guarded by len - max <= %s (needs <= -1, i.e. len < max): the pool can grow beyond max_worker_threads" % (k,),
                      note_ok="guard implies len - max <= %s" % k, witness={"facts": [str(n) for n, _ in facts]})
